@@ -174,3 +174,10 @@ Proof. exact BranchReachFacts.branch_history_observable'. Qed.
 Print Assumptions C10_step_refines_on_every_reachable_repository.
 Print Assumptions C10_history_refines.
 Print Assumptions C10_history_answers.
+
+(* which stored value `rev-parse <name>` reports: the current branch's for the exact name HEAD, the
+   named branch's for every other name -- a branch called "head" or "Head" included (repair F57) *)
+Theorem C10_rev_parse_names_are_exact : forall w a,
+  (a = str "HEAD"%string -> rev_name w a = w_head w) /\ (a <> str "HEAD"%string -> rev_name w a = a).
+Proof. intros w a. split; [intros ->; exact (rev_name_head w) | exact (rev_name_other w a)]. Qed.
+Print Assumptions C10_rev_parse_names_are_exact.
